@@ -1,1 +1,3 @@
 //! Protocol-level models: ledger, history interpreter, fault alphabet, forger.
+pub mod history;
+pub mod proto;
